@@ -77,7 +77,7 @@ class BuiltStat:
             # the program's functions are jax functions: numpy inputs (a user may store
             # numpy arrays in the model) are converted first, otherwise numpy's own
             # scalar promotion (float32 0-d array * python float -> float64) takes over
-            return f(jnp, consts, *[jnp.asarray(a) for a in args])
+            return f(jnp, consts, *[a if a is None else jnp.asarray(a) for a in args])
 
         fn.__name__ = f"fn_{it['fn']}"
         return fn
@@ -127,7 +127,8 @@ class BuiltStat:
                         elif h == "softplus_cls":
                             tvar = var.transform(tfb.Softplus, hinge_softness=tr["hinge_softness"])
                         elif h == "scale_cls":
-                            tvar = var.transform(tfb.Scale, scale=tr["scale"])
+                            sc = tr["scale"]
+                            tvar = var.transform(tfb.Scale, scale=self._ref(sc) if isinstance(sc, dict) else sc)
                         elif h == "default":
                             tvar = var.transform(None)
                         elif h == "auto":
@@ -148,6 +149,10 @@ class BuiltStat:
                 elif dist is not None:
                     self.dist_nodes[name] = dist
                 to_add.append(var)
+            elif k == "opt":
+                node = lsl.Value(it["lattice"][0], _name=name)
+                self.objs[name] = node
+                to_add.append(node)
             elif k == "weak":
                 ins = [self._ref(r) for r in it["args"]]
                 wrap = it.get("wrap", "var")
@@ -214,7 +219,7 @@ class BuiltStat:
 
     # ------------------------------------------------------------------
     def assign(self, name: str, value, via: str = "var"):
-        v = self.jnp.asarray(value, dtype=self.jnp.float32)
+        v = None if value is None else self.jnp.asarray(value, dtype=self.jnp.float32)
         if via == "node":
             self.model.nodes[name].value = v
         else:
@@ -244,7 +249,8 @@ class BuiltStat:
         out = {}
         for a in self.assignable:
             if a["via"] == "node":
-                out[a["name"]] = np.asarray(self.model.nodes[a["target"]].value, dtype=np.float64)
+                v = self.model.nodes[a["target"]].value
+                out[a["name"]] = None if v is None else np.asarray(v, dtype=np.float64)
             else:
                 out[a["name"]] = np.asarray(self.model.vars[a["target"]].value, dtype=np.float64)
         return out
